@@ -286,9 +286,23 @@ func (tw *tokenWorld) refresh(ch *kernel.Chooser) string {
 			return ""
 		}
 	}
+	// in some cases the operator has meanwhile withdrawn the refresh grant from the presenting client's registration
+	var restore func()
+	regNote := ""
+	if cw := w.Store.Clients[p.claimedClient()]; cw != nil && cw.HasGrant(oidc.GrantTypeRefreshToken) && ch.Bool(1, 8) {
+		saved := cw.Grants
+		cw.Grants = slices.DeleteFunc(append([]oidc.GrantType(nil), saved...), func(x oidc.GrantType) bool { return x == oidc.GrantTypeRefreshToken })
+		restore = func() { cw.Grants = saved }
+		regNote = " [refresh grant withdrawn from " + cw.ID + "]"
+		tw.o.Probe("refresh-after-grant-was-withdrawn")
+	}
 	r := w.PostForm("/oauth/token", form, p.creds)
 	w.Store.Inject = nil
-	desc := fmt.Sprintf("refresh token of %s by %s (%s) scope=%s live=%v%s -> %d", g.client, caller, p.label, scopeKind, wasLive, env, statusOf(r))
+	desc := fmt.Sprintf("refresh token of %s by %s (%s) scope=%s live=%v%s%s -> %d", g.client, caller, p.label, scopeKind, wasLive, env, regNote, statusOf(r))
+	if restore != nil {
+		// judged with the registration as it was during the request; put back afterwards
+		defer restore()
+	}
 	if panicProbe(tw.o, r) || r.Err != nil {
 		return desc
 	}
